@@ -152,7 +152,13 @@ class LibDriver:
             else:
                 raise CaseViolation(f'{self.label}: get_tag_name({bad}) returned {r!r:.60} for an id outside 0..{n - 1}', n_tags=n)
         want = self.tags.TagNotFoundError if self.mode == 'module' else AttributeError
-        for u in UNKNOWN_PROBES:
+        probes = list(UNKNOWN_PROBES)
+        if self.mode == 'module':
+            # names that exist on the library CLASS but are neither tags nor attributes of the module: still unknown tag names
+            import types
+            probes += [x for x in dir(self.tags.TagLibrary) if x not in vars(self.tags) and not hasattr(types.ModuleType, x)
+                       and not (x.startswith('_') and not x.startswith('__'))]
+        for u in probes:
             if u in ref:
                 continue
             try:
